@@ -96,6 +96,31 @@ def run(repo: Repo, L: Ledger, tier: str):
         L.ok("R1", label.short, f"tag dispatch correct on all {n1} valuations", label.loc())
     L.extra["label_valuations"] = n1
 
+    # ---------------------------------------------------------------- R7 tagging mode is discovered in file order
+    mk0 = namer.methods.get("make_scaffold_name")
+    fao = repo.cls("BuildAssembly").methods.get("find_assembly_overlaps")
+    if mk0 is None or fao is None:
+        raise AnalysisError("anchors make_scaffold_name / find_assembly_overlaps vanished")
+    sites = [c for c in repo.calls_in(fao) if isinstance(c.func, ast.Attribute) and c.func.attr == mk0.name]
+    lab_sites = [c for c in repo.calls_in(fao) if isinstance(c.func, ast.Attribute) and c.func.attr == label.name]
+    ok7, why7 = len(sites) == 1 and len(lab_sites) == 1, f"{len(sites)} calls of make_scaffold_name in the lookup function (expected exactly one, inside the Pretext scaffold loop)"
+    if ok7:
+        from ..util import ancestors as _anc
+
+        loops_mk = [a for a in _anc(sites[0]) if isinstance(a, ast.For)]
+        loops_lb = [a for a in _anc(lab_sites[0]) if isinstance(a, ast.For)]
+        ok7 = len(loops_mk) == 1 and loops_mk[0] in loops_lb and sites[0].lineno < lab_sites[0].lineno
+        why7 = "the per-scaffold tag scan is not done once per Pretext scaffold inside the same loop that labels its pieces"
+    L.rule("R7", "sticky tagging mode (Target seen, primary haplotype) is updated once per Pretext scaffold, in file order, before its pieces are labelled")
+    L.check(ok7, "R7", fao.short, "make_scaffold_name called once per scaffold inside the labelling loop", why7 + ": a pre-pass over all scaffolds switches Target mode on before the first scaffold is labelled, so untagged scaffolds *before* the first Target tag become contaminants", fao.loc())
+    setters = []
+    for f2 in repo.functions.values():
+        for n in walk_shallow(f2.node):
+            if isinstance(n, ast.Assign) and any(isinstance(t, ast.Attribute) and t.attr == "target_tags" for t in n.targets) and f2.name != "__init__":
+                setters.append((f2, n))
+    ok7b = all(f2 is mk0 and isinstance(n.value, ast.Constant) and n.value.value is True for f2, n in setters) and bool(setters)
+    L.check(ok7b, "R7", "target_tags", "Target mode only ever switched on, and only by the per-scaffold tag scan", f"target_tags is written by {[f2.short + ': ' + norm(n) for f2, n in setters if f2 is not mk0 or not (isinstance(n.value, ast.Constant) and n.value.value is True)]}", mk0.loc())
+
     # ---------------------------------------------------------------- R2
     bad2 = None
     for t, h in itertools.product(TAGS, HAPS):
